@@ -33,12 +33,15 @@ class Ctx:
         self.solver_s = 0.0
 
     def executor(self, profile="dev"):
+        """profile: dev | rel (crates/ordinals copy)  or  lift-dev | lift-rel (lifted src files)"""
         if profile not in self.ex:
             from . import kani as K
-            crate = K.gen_ordinals()
-            mir = os.path.join(C.BUILD, "mir", "ordinals.%s.mir" % profile)
-            mirload.dump_mir(crate, mir, overflow_checks=(profile == "dev"))
-            self.ex[profile] = mirload.load(crate, mir, overflow_checks=(profile == "dev"))
+            lift = profile.startswith("lift-")
+            oc = profile.endswith("dev")
+            crate = K.gen_lift() if lift else K.gen_ordinals()
+            mir = os.path.join(C.BUILD, "mir", "%s.%s.mir" % ("liftk" if lift else "ordinals", "dev" if oc else "rel"))
+            mirload.dump_mir(crate, mir, overflow_checks=oc)
+            self.ex[profile] = mirload.load(crate, mir, overflow_checks=oc)
         return self.ex[profile]
 
     def natk(self, profile="dev"):
@@ -198,6 +201,7 @@ class Ob:
 
 def guarded(ctx, name, claim, bounds, profile, body, replay=None):
     ob = Ob(ctx, name, claim, bounds, profile)
+    sys.stderr.write("[e2] %s ...\n" % name); sys.stderr.flush()
     try:
         body(ob)
     except (Unsupported, X.Bound) as e:
@@ -589,7 +593,598 @@ def _rep_rarity(ctx, v):
     return None
 
 
-PROPS = {"C29": c29}
+# =========================================================================== C33
+
+NETWORKS = ["bitcoin", "testnet", "testnet4", "signet", "regtest"]
+STEP12 = 99246114928149462          # "AAAAAAAAAAAAA": first 13-letter name
+RESERVED = 6402364363415443603228541259936211926
+
+
+def c33(ctx):
+    h1, h2, r = z3.Int("h1"), z3.Int("h2"), z3.Int("rune")
+    U32 = 4294967295
+
+    def net_enum(i):
+        return Enum("Network", i, [])
+
+    def first_rune_height(ob, i):
+        res = ob.ex().run("rune::_::first_rune_height", [net_enum(i)])
+        assert len(res) == 1 and res[0].kind == "return", res
+        return res[0].value
+
+    for ni, nname in enumerate(NETWORKS):
+        def ob_mono(ob, ni=ni):
+            ob.vars = {"h1": h1, "h2": h2}
+            pre = [h1 >= 0, h1 <= h2, h2 <= U32]
+            res1 = run_paths(ob, "rune::_::minimum_at_height", [net_enum(ni), Struct([h1])], pre)
+            for ra in res1:
+                if ra.kind != "return":
+                    ob.reach(ra.pc, "minimum_at_height panics: " + ra.msg)
+                    continue
+                st = X.State(); st.pc = list(ra.pc)
+                for rb in ob.ex().run("rune::_::minimum_at_height", [net_enum(ni), Struct([h2])], st):
+                    ob.paths += 1
+                    if rb.kind != "return":
+                        ob.reach(rb.pc, "minimum_at_height panics: " + rb.msg)
+                        continue
+                    ob.query(rb.pc, rb.value[0] <= ra.value[0], ob.vars, "h1 <= h2 => minimum(h2) <= minimum(h1)")
+        guarded(ctx, "c33_monotone_" + nname, "minimum_at_height never increases with height and never panics", "network %s; all u32 heights h1 <= h2" % nname,
+                "dev", ob_mono, lambda v, nname=nname: _rep_mono(ctx, nname, v))
+
+        def ob_ends(ob, ni=ni):
+            ob.vars = {"h1": h1}
+            start = first_rune_height(ob, ni)
+            # (b) at (and before) the first rune block every >= 13-letter name is etchable
+            for ra in run_paths(ob, "rune::_::minimum_at_height", [net_enum(ni), Struct([h1])], [h1 >= 0, h1 <= max(start, 0), h1 <= U32]):
+                if ra.kind != "return":
+                    ob.reach(ra.pc, "panic " + ra.msg)
+                else:
+                    ob.query(ra.pc, ra.value[0] <= STEP12, ob.vars, "minimum(h <= first rune block) <= first 13-letter name")
+            # (c) once the schedule completes everything is etchable
+            for ra in run_paths(ob, "rune::_::minimum_at_height", [net_enum(ni), Struct([h1])], [h1 >= start + HALVING - 1, h1 <= U32]):
+                if ra.kind != "return":
+                    ob.reach(ra.pc, "panic " + ra.msg)
+                else:
+                    ob.query(ra.pc, ra.value[0] == 0, ob.vars, "minimum(h >= start+210000-1) == 0")
+        guarded(ctx, "c33_schedule_ends_" + nname, ">=13-letter names etchable at the first rune block; minimum is 0 once the schedule completes",
+                "network %s; all heights at/before the first rune block and at/after its end" % nname, "dev", ob_ends,
+                lambda v, nname=nname: _rep_ends(ctx, nname, v))
+
+        def ob_unlock(ob, ni=ni):
+            ob.vars = {"rune": r}
+            res = run_paths(ob, "rune::_::unlock_height", [Struct([r]), net_enum(ni)], [r >= 0, r < RESERVED])
+            for ru in res:
+                if ru.kind != "return":
+                    ob.reach(ru.pc, "unlock_height panics: " + ru.msg)
+                    continue
+                if ru.value.variant != 1:
+                    ob.reach(ru.pc, "unlock_height is None for a non-reserved rune")
+                    continue
+                uh = ru.value.fields[0][0]
+                st = X.State(); st.pc = list(ru.pc)
+                for ra in ob.ex().run("rune::_::minimum_at_height", [net_enum(ni), Struct([uh])], st):
+                    ob.paths += 1
+                    if ra.kind != "return":
+                        ob.reach(ra.pc, "minimum panics " + ra.msg)
+                        continue
+                    ob.query(ra.pc, ra.value[0] <= r, ob.vars, "minimum(unlock_height(r)) <= r")
+                st = X.State(); st.pc = list(ru.pc) + [uh > 0]
+                if not ob.ex().feasible(st.pc):
+                    continue
+                for ra in ob.ex().run("rune::_::minimum_at_height", [net_enum(ni), Struct([uh - 1])], st):
+                    ob.paths += 1
+                    if ra.kind != "return":
+                        ob.reach(ra.pc, "minimum panics " + ra.msg)
+                        continue
+                    ob.query(ra.pc, ra.value[0] > r, ob.vars, "minimum(unlock_height(r) - 1) > r")
+            # reserved names have no unlock height
+            for ru in run_paths(ob, "rune::_::unlock_height", [Struct([r]), net_enum(ni)], [r >= RESERVED, r < 2 ** 128]):
+                if ru.kind != "return":
+                    ob.reach(ru.pc, "panic " + ru.msg)
+                else:
+                    ob.query(ru.pc, ru.value.variant == 0, ob.vars, "reserved => None")
+        guarded(ctx, "c33_unlock_height_is_first_" + nname, "for every non-reserved rune, unlock_height is the least height whose minimum is <= the rune; reserved names have none",
+                "network %s; all runes below RESERVED (and all reserved u128 values)" % nname, "dev", ob_unlock,
+                lambda v, nname=nname: _rep_unlock(ctx, nname, v))
+
+
+def _nat_min(ctx, net, h):
+    a = ctx.native(["minimum %s %d" % (net, h)])[0]
+    return None if a == "PANIC" else int(a["rune"])
+
+
+def _rep_mono(ctx, net, v):
+    a, b = _nat_min(ctx, net, v["h1"]), _nat_min(ctx, net, v["h2"])
+    if a is None or b is None or b > a:
+        return {"network": net, "h1": v["h1"], "h2": v["h2"], "min1": a, "min2": b}
+    return None
+
+
+def _rep_ends(ctx, net, v):
+    h = v["h1"]
+    a = _nat_min(ctx, net, h)
+    start = int(ctx.native(["first_rune_height %s" % net])[0]["h"])
+    if a is None or (h <= start and a > STEP12) or (h >= start + HALVING - 1 and a != 0):
+        return {"network": net, "height": h, "minimum": a, "first_rune_height": start}
+    return None
+
+
+def _rep_unlock(ctx, net, v):
+    r = v["rune"]
+    a = ctx.native(["unlock %s %d" % (net, r)])[0]
+    if a == "PANIC":
+        return {"network": net, "rune": r, "native": "PANIC"}
+    if r >= RESERVED:
+        return None if a == "none" else {"network": net, "rune": r, "native": a}
+    if a == "none" or "some" not in a:
+        return {"network": net, "rune": r, "native": a}
+    uh = int(a["some"])
+    m = _nat_min(ctx, net, uh)
+    if m is None or m > r:
+        return {"network": net, "rune": r, "unlock_height": uh, "minimum_there": m}
+    if uh > 0:
+        m2 = _nat_min(ctx, net, uh - 1)
+        if m2 is None or m2 <= r:
+            return {"network": net, "rune": r, "unlock_height": uh, "minimum_one_before": m2}
+    return None
+
+
+# =========================================================================== C34
+
+U128 = 2 ** 128 - 1
+
+
+def pow10(e, maxk=60):
+    """10^e as an If-chain (e symbolic, 0 <= e <= maxk)"""
+    out = z3.IntVal(10 ** maxk)
+    for k in range(maxk - 1, -1, -1):
+        out = z3.If(e == k, z3.IntVal(10 ** k), out)
+    return out
+
+
+def formatter():
+    return X.Ref([X.Opaque("formatter", [])], (), True)
+
+
+def c34(ctx):
+    value, scale, div = z3.Int("value"), z3.Int("scale"), z3.Int("divisibility")
+    amount = z3.Int("amount")
+
+    def ob_to_integer(ob):
+        ob.vars = {"value": value, "scale": scale, "divisibility": div}
+        pre = [value >= 0, value <= U128, scale >= 0, scale <= 255, div >= 0, div <= 38]
+        for r in run_paths(ob, "decimal::_::to_integer", [Struct([value, scale]), div], pre):
+            if r.kind != "return":
+                ob.reach(r.pc, "to_integer panics: " + r.msg)
+                continue
+            exact = value * pow10(div - scale)
+            if r.value.variant == 0:
+                ob.query(r.pc, z3.And(scale <= div, r.value.fields[0] == exact), ob.vars, "Ok(v) => v == value * 10^(div-scale)")
+            else:
+                ob.query(r.pc, z3.Or(scale > div, exact > U128), ob.vars, "Err only for excess precision or overflow")
+    guarded(ctx, "c34_to_integer_exact_or_error", "Decimal{value,scale}.to_integer(d) is Ok(value*10^(d-scale)) exactly when scale <= d and that product fits u128, otherwise an error; never panics",
+            "all u128 values, all u8 scales, divisibility 0..=38", "lift-dev", ob_to_integer, lambda v: _rep_to_integer(ctx, v))
+
+    def pile_paths(ob, pre):
+        """-> [(pc, whole, frac or None, width or None)] from the numbers Pile::fmt hands to write!"""
+        out = []
+        f = formatter()
+        pile = X.Ref([Struct([amount, div, Enum("Option", 0, [])])])
+        for r in run_paths(ob, "pile::_::fmt", [pile, f], pre):
+            if r.kind != "return":
+                ob.reach(r.pc, "Pile::fmt panics: " + r.msg)
+                continue
+            out.append(r)
+        return out
+
+    def ob_pile(ob):
+        # Pile::fmt writes through `f`; the formatter log lives in the per-path state, so
+        # re-run per path and read the recorded write! arguments from the returned state
+        ob.vars = {"amount": amount, "divisibility": div}
+        exq = ob.ex()
+        pre = [amount >= 0, amount <= U128, div >= 0, div <= 38]
+        fcell = [X.Opaque("formatter", [])]
+        pile = X.Ref([Struct([amount, div, Enum("Option", 0, [])])])
+        st = X.State()
+        st.pc = list(pre)
+        st.formatter_cell = fcell
+        res = exq.run(exq.find_impl_fn("pile", "fmt", r"^impl Display for Pile"), [pile, X.Ref(fcell, (), True)], st)
+        ob.paths += len(res)
+        for r in res:
+            if r.kind != "return":
+                ob.reach(r.pc, "Pile::fmt panics: " + r.msg)
+                continue
+            log = r.final_formatter
+            nums = log[0]["args"]
+            cutoff = pow10(div)
+            if len(nums) == 1:
+                ob.query(r.pc, z3.And(nums[0] * cutoff == amount), ob.vars, "no fraction printed => amount == whole * 10^div")
+            else:
+                whole, frac, width = nums
+                ob.query(r.pc, z3.And(width >= 1, width <= div, frac >= 1, frac < pow10(width), frac % 10 != 0,
+                                      amount == whole * cutoff + frac * pow10(div - width)),
+                         ob.vars, "amount == whole*10^div + frac*10^(div-width), frac < 10^width, no trailing zero")
+    guarded(ctx, "c34_pile_display_numbers", "the numbers Pile's Display prints (whole[.fraction zero-padded to width]) decompose the amount exactly at its divisibility",
+            "all u128 amounts, divisibility 0..=38; the rendering of integers to digits is not encoded (format arguments are recorded)", "dev", ob_pile,
+            lambda v: _rep_pile(ctx, v))
+
+
+def _rep_to_integer(ctx, v):
+    a = ctx.native(["to_integer %d %d %d" % (v["value"], v["scale"], v["divisibility"])])[0]
+    if a == "PANIC":
+        return {"inputs": v, "native": "PANIC"}
+    d, sc = v["divisibility"], v["scale"]
+    exact = v["value"] * 10 ** (d - sc) if sc <= d else None
+    if "ok" in a:
+        if exact is None or int(a["ok"]) != exact:
+            return {"inputs": v, "native": a, "expected": exact}
+    else:
+        if exact is not None and exact <= U128:
+            return {"inputs": v, "native": "err", "expected": exact}
+    return None
+
+
+def _rep_pile(ctx, v):
+    a = ctx.native(["pile_display %d %d" % (v["amount"], v["divisibility"])])[0]
+    if a == "PANIC":
+        return {"inputs": v, "native": "PANIC"}
+    txt = a["s"].split("\u00a0")[0] if isinstance(a, dict) else ""
+    txt = re.sub(r"[^0-9.].*$", "", a["s"])
+    if "." in txt:
+        w, f = txt.split(".")
+        val = int(w) * 10 ** v["divisibility"] + int(f) * 10 ** (v["divisibility"] - len(f))
+    else:
+        val = int(txt) * 10 ** v["divisibility"]
+    return None if val == v["amount"] else {"inputs": v, "printed": txt, "denotes": val}
+
+
+# =========================================================================== C31 (and the parse half of C34)
+
+def model_int(m, t):
+    v = m.eval(t, model_completion=True)
+    return v.as_long() if z3.is_int_value(v) else None
+
+
+def build_string(m, sa, sid, delims):
+    """A concrete string realising the abstract string `sid` in model m.  `delims` maps a
+    char code to the text to insert for a split."""
+    d = sa.get(sid, {})
+    if d.get("splits"):
+        # the first split that the path took as Some: its parts have attributes
+        for delim, a, b, took in d["splits"]:
+            if z3.is_true(m.eval(took, model_completion=True)):
+                return build_string(m, sa, a, delims) + chr(delim) + build_string(m, sa, b, delims)
+    cnt = model_int(m, d["count"]) if "count" in d and not isinstance(d["count"], int) else d.get("count")
+    for key in ("parse_u128", "parse_u64", "parse_u32"):
+        if key in d:
+            v, okf = d[key]
+            if z3.is_true(m.eval(okf, model_completion=True)):
+                val = model_int(m, v)
+                return str(val).zfill(min(cnt, 5000) if cnt else 1)
+            return "x" * (min(cnt, 5000) if cnt else 0)
+    if "parse_f64" in d:
+        v, okf = d["parse_f64"]
+        if z3.is_true(m.eval(okf, model_completion=True)):
+            fv = m.eval(v, model_completion=True)
+            if z3.is_fp(fv):
+                if fv.isNaN():
+                    return "NAN"
+                if fv.isInf():
+                    return "-INF" if fv.isNegative() else "INF"
+                try:
+                    return repr(float(fv.as_string())).upper()
+                except Exception:
+                    return str(fv)
+        return "?"
+    return "x" * (cnt if cnt else 0)
+
+
+class StrOb(Ob):
+    """Obligation whose counterexamples are strings: keeps the model and the path's
+    string attributes so the replay can rebuild a concrete input."""
+
+    def squery(self, r, prop, what, sid, delims=None):
+        self.queries += 1
+        s = z3.Solver()
+        s.set("timeout", 60000)
+        s.add(*r.pc)
+        if not self.witness and s.check() == z3.sat:
+            self.witness = True
+        s.add(z3.Not(prop) if not isinstance(prop, bool) else z3.BoolVal(not prop))
+        t0 = time.time()
+        res = s.check()
+        self.ctx.solver_s += time.time() - t0
+        if res == z3.unsat:
+            return True
+        if res == z3.unknown:
+            # second opinion with a different z3 configuration before giving up
+            for mk in (lambda: z3.SolverFor("QF_LIA"), lambda: z3.Then("simplify", "solve-eqs", "propagate-values", "smt").solver()):
+                try:
+                    s2 = mk()
+                    s2.set("timeout", 120000)
+                    s2.add(*s.assertions())
+                    res = s2.check()
+                except z3.Z3Exception:
+                    res = z3.unknown
+                if res != z3.unknown:
+                    s = s2
+                    break
+            if res == z3.unsat:
+                return True
+        if res == z3.unknown:
+            self.status, self.reason = "inconclusive", "solver unknown (%s)" % what
+            return False
+        m = s.model()
+        # prefer a model with short strings (the replay has to build them)
+        counts = [d["count"] for d in r.strattrs.values() if "count" in d and not isinstance(d["count"], int)]
+        for cap in (45, 400):
+            s.push()
+            for c in counts:
+                s.add(c <= cap)
+            if s.check() == z3.sat:
+                m = s.model()
+                s.pop()
+                break
+            s.pop()
+        try:
+            text = build_string(m, r.strattrs, sid, delims)
+        except Exception as e:
+            text = None
+            self.reason = "could not concretise string: %r" % (e,)
+        self.cex.append((what, {"string": text}))
+        return False
+
+
+def sguarded(ctx, name, claim, bounds, profile, body, replay):
+    ob = StrOb(ctx, name, claim, bounds, profile)
+    sys.stderr.write("[e2] %s ...\n" % name); sys.stderr.flush()
+    try:
+        body(ob)
+    except (Unsupported, X.Bound) as e:
+        ob.status, ob.reason = "inconclusive", "encoding stopped: %s: %s" % (type(e).__name__, e)
+    except Exception:
+        ob.status, ob.reason = "inconclusive", "internal error: " + traceback.format_exc()[-700:]
+    return ob.finish(replay)
+
+
+def nat_profile(profile):
+    return "dev" if profile.endswith("dev") else "release"
+
+
+def exact_decimal(text):
+    """(value, scale) denoted by a decimal literal per Decimal's grammar, or None."""
+    if "." in text:
+        a, b = text.split(".", 1)
+        if a == "" and b == "":
+            return None
+        if not re.fullmatch(r"\+?[0-9]*", a) or not re.fullmatch(r"\+?[0-9]*", b) or a == "+" or b == "+":
+            return None
+        i = int(a) if a else 0
+        if b == "":
+            return (i, 0)
+        tz = len(b) - len(b.rstrip("0"))
+        sig = len(b.lstrip("+")) - tz if False else len(b) - tz
+        d = int(b) // 10 ** tz
+        return (i * 10 ** sig + d, sig)
+    if not re.fullmatch(r"\+?[0-9]+", text):
+        return None
+    return (int(text), 0)
+
+
+def c31_decimal(ctx, profile):
+    tag = "dev" if profile.endswith("dev") else "release"
+
+    def body(ob):
+        exq = ob.ex()
+        s0 = X.SymStr("dec")
+        f = exq.find_impl_fn("decimal", "from_str", r"^impl FromStr for Decimal")
+        st = X.State()
+        res = exq.run(f, [s0], st)
+        ob.paths += len(res)
+        for r in res:
+            if r.kind != "return":
+                ob.squery(r, False, "Decimal::from_str panics: " + r.msg, s0.id)
+                continue
+            if r.value.variant != 0:
+                continue
+            val, sc = r.value.fields[0][0], r.value.fields[0][1]
+            sa = r.strattrs
+            d = sa.get(s0.id, {})
+            taken = [(a, b) for _, a, b, took in d.get("splits", []) if not exq.feasible(r.pc, z3.Not(took))]
+            if taken:
+                a, b = taken[0]
+                ca, cb = sa[a]["count"], sa[b]["count"]
+                I = z3.If(ca == 0, 0, sa[a]["parse_u128"][0]) if "parse_u128" in sa[a] else z3.IntVal(0)
+                if "parse_u128" in sa[b]:
+                    D = z3.If(cb == 0, 0, sa[b]["parse_u128"][0])
+                else:
+                    D = z3.IntVal(0)
+                # "I.D" denotes I + D/10^count(D); the result denotes value/10^scale
+                prop = z3.And(sc >= 0, sc <= 255, val * pow10(cb, 300) == (I * pow10(cb, 300) + D) * pow10(sc, 300))
+                ob.squery(r, prop, "accepted value differs from the number the string denotes", s0.id)
+            else:
+                v = d["parse_u128"][0]
+                ob.squery(r, z3.And(val == v, sc == 0), "integer literal", s0.id)
+    def replay(v):
+        text = v.get("string")
+        if text is None:
+            return None
+        a = ctx.native(["decimal_parse " + text], nat_profile(profile))[0]
+        want = exact_decimal(text)
+        if a == "PANIC":
+            return {"string": text, "native": "PANIC", "profile": tag}
+        if isinstance(a, dict) and "ok" in a:
+            got = (int(a["ok"]), int(a["scale"]))
+            if want is None or got[0] * 10 ** want[1] != want[0] * 10 ** got[1]:
+                return {"string": text, "native": a, "denotes": want, "profile": tag}
+        return None
+    sguarded(ctx, "c31_decimal_from_str_" + tag, "Decimal::from_str never panics and accepts a string only as the exact number it denotes",
+             "every string (abstract: split at '.', each part an arbitrary string with symbolic length/digits); %s profile (%s)" % (tag, "overflow checks on" if tag == "dev" else "wrapping arithmetic"),
+             profile, body, replay)
+
+
+def height_third_ref(exq, sat):
+    """(height, offset) of a sat below the supply as a closed form over the real
+    Epoch::STARTING_SATS table (read from the MIR): the characterisation that C29 decides
+    for the real Sat::height / Sat::third."""
+    table = [x[0] for x in exq.named_const("epoch::Epoch::STARTING_SATS", None)]
+    h, t = z3.IntVal(-1), z3.IntVal(-1)
+    for k in range(32, -1, -1):
+        sub = (50 * COIN) >> k
+        inb = z3.And(sat >= table[k], sat < table[k + 1])
+        h = z3.If(inb, k * HALVING + (sat - table[k]) / sub, h)
+        t = z3.If(inb, (sat - table[k]) % sub, t)
+    return h, t
+
+
+def epoch_cases(exq, pc, sat):
+    """[(k, in-epoch-k condition, height term, offset term)] for the epochs feasible on this
+    path, plus an 'outside supply' case; splits the closed form so each query is linear."""
+    table = [x[0] for x in exq.named_const("epoch::Epoch::STARTING_SATS", None)]
+    out = []
+    for k in range(33):
+        sub = (50 * COIN) >> k
+        inb = z3.And(sat >= table[k], sat < table[k + 1])
+        if exq.feasible(pc, inb):
+            out.append((k, inb, k * HALVING + (sat - table[k]) / sub, (sat - table[k]) % sub))
+    return out
+
+
+def degree_of(ob, exq, pc, satv):
+    st = X.State(); st.pc = list(pc)
+    out = []
+    for r in exq.run("degree::_::from", [sat_struct(satv)], st):
+        ob.paths += 1
+        out.append(r)
+    return out
+
+
+def c31_sat(ctx, profile):
+    tag = "dev" if profile == "dev" else "release"
+    DEG, MIN, SEC, THI = ord("°"), ord("′"), ord("″"), ord("‴")
+
+    def parsed(sa, sid, ty):
+        d = sa.get(sid, {})
+        return d.get("parse_" + ty, (None, None))[0]
+
+    def body_degree(ob):
+        exq = ob.ex()
+        s0 = X.SymStr("deg")
+        res = exq.run("sat::_::from_degree", [s0], X.State())
+        ob.paths += len(res)
+        for r in res:
+            if r.kind != "return":
+                ob.squery(r, False, "from_degree panics: " + r.msg, s0.id)
+                continue
+            if r.value.variant != 0:
+                continue
+            sat = r.value.fields[0][0]
+            sa = r.strattrs
+            # components: s0 = A ° R1 ; R1 = B ′ R2 ; R2 = C ″ R3 ; R3 = D ‴ R4 | R3
+            def split_of(sid):
+                for _, a, b, took in sa.get(sid, {}).get("splits", []):
+                    if not exq.feasible(r.pc, z3.Not(took)):
+                        return a, b
+                return None
+            a, r1 = split_of(s0.id)
+            b, r2 = split_of(r1)
+            c, r3 = split_of(r2)
+            sp = split_of(r3)
+            A, B, Cc = parsed(sa, a, "u32"), parsed(sa, b, "u32"), parsed(sa, c, "u32")
+            Dd = parsed(sa, sp[0], "u64") if sp else z3.IntVal(0)
+            ob.squery(r, z3.And(sat >= 0, sat <= SUPPLY), "returned sat outside [0, SUPPLY]", s0.id)
+            for k, inb, hh, tt in epoch_cases(exq, r.pc, sat):
+                ob.squery(r, z3.Implies(inb, z3.And(hh / (6 * HALVING) == A, hh % HALVING == B, hh % DIFFCHANGE == Cc, tt == Dd)),
+                          "accepted degree string denotes a different sat (epoch %d)" % k, s0.id)
+    def replay_sat(kind):
+        def rep(v):
+            text = v.get("string")
+            if text is None:
+                return None
+            a = ctx.native(["parse_sat " + text], nat_profile(profile))[0]
+            if a == "PANIC":
+                return {"string": text, "native": "PANIC", "profile": tag}
+            if isinstance(a, dict) and "ok" in a:
+                n = int(a["ok"])
+                b = ctx.native(["sat_notations %d" % n], nat_profile(profile))[0] if n < SUPPLY else None
+                if kind == "degree":
+                    nums = [int(x) for x in re.findall(r"\d+", text)]
+                    nums += [0] * (4 - len(nums))
+                    if b is None or b == "PANIC":
+                        return None if n == SUPPLY else {"string": text, "native": a}
+                    got = [int(x) for x in re.findall(r"\d+", b["degree"])]
+                    if got != nums[:4]:
+                        return {"string": text, "accepted_as": n, "whose_degree_is": b["degree"], "profile": tag}
+                if kind == "decimal":
+                    hh, off = [int(x) for x in text.split(".")]
+                    if b is None or b == "PANIC":
+                        return None if n == SUPPLY else {"string": text, "native": a}
+                    if b["decimal"] != "%d.%d" % (hh, off):
+                        return {"string": text, "accepted_as": n, "whose_decimal_is": b["decimal"], "profile": tag}
+                if kind == "percentile":
+                    body = text[:-1].lower()
+                    if body.lstrip("+-") in ("nan", "inf", "infinity"):
+                        return {"string": text, "accepted_as": n, "profile": tag, "note": "non-finite percentage accepted"}
+            return None
+        return rep
+    sguarded(ctx, "c31_sat_from_degree_" + tag, "Sat::from_degree never panics and accepts A°B′C″[D‴] only as the sat whose degree is (A,B,C,D)",
+             "every string (abstract components: any u32/u32/u32/u64 parse results, any lengths); %s profile" % tag, profile, body_degree, replay_sat("degree"))
+
+    def body_decimal(ob):
+        exq = ob.ex()
+        s0 = X.SymStr("dcm")
+        res = exq.run("sat::_::from_decimal", [s0], X.State())
+        ob.paths += len(res)
+        for r in res:
+            if r.kind != "return":
+                ob.squery(r, False, "from_decimal panics: " + r.msg, s0.id)
+                continue
+            if r.value.variant != 0:
+                continue
+            sat = r.value.fields[0][0]
+            sa = r.strattrs
+            a, b = [(x, y) for _, x, y, took in sa[s0.id]["splits"] if not exq.feasible(r.pc, z3.Not(took))][0]
+            H, O = parsed(sa, a, "u32"), parsed(sa, b, "u64")
+            ob.squery(r, z3.And(sat >= 0, sat <= SUPPLY), "returned sat outside [0, SUPPLY]", s0.id)
+            for k, inb, hh, tt in epoch_cases(exq, r.pc, sat):
+                ob.squery(r, z3.Implies(inb, z3.And(hh == H, tt == O)), "accepted H.O denotes a different sat (epoch %d)" % k, s0.id)
+    sguarded(ctx, "c31_sat_from_decimal_" + tag, "Sat::from_decimal never panics and accepts H.O only as the sat at offset O of block H",
+             "every string (abstract: any u32 height, any u64 offset); %s profile" % tag, profile, body_decimal, replay_sat("decimal"))
+
+    def body_percentile(ob):
+        exq = ob.ex()
+        s0 = X.SymStr("pct")
+        res = exq.run("sat::_::from_percentile", [s0], X.State())
+        ob.paths += len(res)
+        for r in res:
+            if r.kind != "return":
+                ob.squery(r, False, "from_percentile panics: " + r.msg, s0.id)
+                continue
+            if r.value.variant != 0:
+                continue
+            sat = r.value.fields[0][0]
+            sa = r.strattrs
+            sub = sa[s0.id]["substr"][0][2]
+            p = sa[sub]["parse_f64"][0]
+            ob.squery(r, z3.And(z3.Not(z3.fpIsNaN(p)), z3.Not(z3.fpIsInf(p)), sat >= 0, sat < SUPPLY), "non-finite percentile accepted / sat out of range", sub,)
+    def rep_pct(v):
+        text = v.get("string")
+        if text is None:
+            return None
+        return replay_sat("percentile")({"string": text + "%"})
+    sguarded(ctx, "c31_sat_from_percentile_" + tag, "Sat::from_percentile never panics, rejects NaN and infinite percentages and returns a sat below the supply",
+             "every string ending in '%%' (f64::from_str modelled as returning any f64 incl. NaN/inf); %s profile" % tag, profile, body_percentile, rep_pct)
+
+
+def c31(ctx):
+    c31_decimal(ctx, "lift-dev")
+    c31_sat(ctx, "dev")
+    if ctx.tier == "thorough":
+        c31_sat(ctx, "rel")
+        c31_decimal(ctx, "lift-rel")
+
+
+PROPS = {"C29": c29, "C33": c33, "C34": c34, "C31": c31}
 
 
 def main():
